@@ -59,7 +59,7 @@ def sym_int(x):
     return int(x)
 
 
-def tiny_engine(fl, n, ranges, values=None, same_names=False):
+def tiny_engine(fl, n, ranges, values=None, same_names=False, disabled=None):
     ivs = [fl.InputVariable("X0" if same_names else f"X{i}", minimum=ranges[i][0], maximum=ranges[i][1], terms=[fl.Rectangle("a", -1e6, 1e6)]) for i in range(n)]
     ov = fl.OutputVariable("O", minimum=0, maximum=1, defuzzifier=fl.WeightedAverage(), terms=[fl.Constant("a", 0.5)])
     e = fl.Engine("e", "", ivs, [ov], [])
@@ -67,10 +67,12 @@ def tiny_engine(fl, n, ranges, values=None, same_names=False):
     if values is not None:
         for iv, v in zip(ivs, values):
             iv.value = v
+    if disabled is not None:
+        ivs[disabled].enabled = False
     return e
 
 
-def ob_grid(scope, n, vmax, inactive=None, label="", vmin=1, same_names=False):
+def ob_grid(scope, n, vmax, inactive=None, label="", vmin=1, same_names=False, disabled=None):
     def run(ob):
         fl = install()
         set_mode("R")
@@ -91,6 +93,8 @@ def ob_grid(scope, n, vmax, inactive=None, label="", vmin=1, same_names=False):
                               "ov = fl.OutputVariable('O', minimum=0, maximum=1, defuzzifier=fl.WeightedAverage(), terms=[fl.Constant('a', 0.5)])",
                               "e = fl.Engine('e', '', ivs, [ov], [])",
                               "e.rule_blocks.append(fl.RuleBlock('rb', activation=fl.General(), rules=[fl.Rule.create('if X0 is a then O is a', e)]))",
+                              f"disabled = {disabled!r}",
+                              "if disabled is not None: ivs[disabled].enabled = False      # a disabled input variable is still a column that is swept",
                               "if inactive is not None: ivs[inactive].value = held",
                               "active = None if inactive is None else {iv for i, iv in enumerate(ivs) if i != inactive}",
                               "captured = {'calls': 0}",
@@ -114,7 +118,7 @@ def ob_grid(scope, n, vmax, inactive=None, label="", vmin=1, same_names=False):
         rp = replay_fn(PROPERTY, label, rbody, key=None)
 
         def body():
-            e = tiny_engine(fl, n, R, same_names=same_names)
+            e = tiny_engine(fl, n, R, same_names=same_names, disabled=disabled)
             active = None
             if inactive is not None:
                 e.input_variables[inactive].value = held
@@ -363,6 +367,8 @@ def obligations(tier, seed):
     obs.append(("grid/all-variables/n2/inactive0", ob_grid("all", 2, 20, inactive=0, label="grid/all-variables/n2/inactive0")))
     # input variables need not have distinct names (unnamed variables share the name ""): columns are per variable, not per name
     obs.append(("grid/each-variable/n2/same-names", ob_grid("each", 2, 3, label="grid/each-variable/n2/same-names", same_names=True)))
+    obs.append(("grid/each-variable/n2/disabled1", ob_grid("each", 2, 3, label="grid/each-variable/n2/disabled1", disabled=1)))
+    obs.append(("grid/all-variables/n2/disabled0", ob_grid("all", 2, 9, label="grid/all-variables/n2/disabled0", disabled=0)))
     obs.append(("grid/each-variable/n3/inactive1", ob_grid("each", 3, 3, inactive=1, label="grid/each-variable/n3/inactive1")))
     # grids of more than a thousand rows (one table, one header, whatever the size): a window of values around 1024 and 33 x 33
     obs.append(("grid/each-variable/n1/large", ob_grid("each", 1, 1025, label="grid/each-variable/n1/large", vmin=1025)))
